@@ -40,6 +40,26 @@ use std::rc::Rc;
 
 pub const PROP: super::Prop = super::Prop { id: "C06", level: "exploration", check, replay };
 
+/// Ids of the C06 findings whose entry in known_findings.json (under
+/// VERIF_ROOT, default /verif) has status "known".  Only those are tolerated:
+/// a failing run that shows the wire pattern of a *known* finding is excluded
+/// and counted, and the fixture::lo generator avoids the shape of a *known*
+/// F-C06-2.  An entry with status "fixed" (or no entry) suppresses nothing:
+/// the full clause is asserted and the old signature is reported again.
+pub fn is_known(id: &str) -> bool {
+    static KNOWN: std::sync::OnceLock<Vec<String>> = std::sync::OnceLock::new();
+    KNOWN
+        .get_or_init(|| {
+            crate::engine::load_findings()
+                .into_iter()
+                .filter(|f| f.property == "C06" && f.status == "known")
+                .map(|f| f.id)
+                .collect()
+        })
+        .iter()
+        .any(|k| k == id)
+}
+
 pub const PORT: u16 = 9000;
 pub const KEY_C2S: u8 = 0x31;
 pub const KEY_S2C: u8 = 0xA7;
@@ -357,8 +377,8 @@ fn safety(seen: &Seen, out: &mut Outcome) -> [Dir; 2] {
 
 /// Known-finding patterns, recognised from the wire state at the end of a run
 /// that did not complete.  Returns (finding id, signature suffix).
-fn attribute(sc: &Scenario, seen: &Seen) -> Option<(&'static str, &'static str)> {
-    let tr = seen.tracker.as_ref()?;
+fn attribute(sc: &Scenario, seen: &Seen) -> Vec<(&'static str, &'static str)> {
+    let Some(tr) = seen.tracker.as_ref() else { return Vec::new() };
     let mut lost_ack = false;
     let mut zero_win = false;
     let mut cut_short = false;
@@ -412,6 +432,14 @@ fn attribute(sc: &Scenario, seen: &Seen) -> Option<(&'static str, &'static str)>
                     cut_short = true;
                 }
             }
+            // this end received a duplicate of something it had already acknowledged, after one of
+            // its own ACK-bearing packets had been lost: the duplicate was the peer asking again
+            if me.got_duplicate {
+                let me_addr = c.addr[e];
+                if seen.pkts.iter().any(|p| p.fate == Fate::Drop && Some(p.src) == me_addr && p.tcp.map(|t| t.ackf).unwrap_or(false)) {
+                    lost_ack = true;
+                }
+            }
             if me.sent_below_una {
                 ack_ignored = true;
             }
@@ -425,19 +453,23 @@ fn attribute(sc: &Scenario, seen: &Seen) -> Option<(&'static str, &'static str)>
             }
         }
     }
+    let mut v = Vec::new();
     if stale_rst && reset_seen {
-        Some(("F-C06-5", "rst-for-late-segment-resets-connection-already-closed-in-both-directions(no-time-wait,rst-not-validated)"))
-    } else if zero_win {
-        Some(("F-C06-2", "sender-left-with-zero-window(no-persist-probe)"))
-    } else if cut_short {
-        Some(("F-C06-3", "aborted-before-oldest-segment-was-sent-retx_max+1-times(handshake-retx-counters-carried-over)"))
-    } else if ack_ignored {
-        Some(("F-C06-4", "delivered-ack-ignored-after-go-back-n-rewind(sender-retransmits-below-it)"))
-    } else if lost_ack {
-        Some(("F-C06-1", "acknowledged-data-retransmitted-but-never-re-acked"))
-    } else {
-        None
+        v.push(("F-C06-5", "rst-for-late-segment-resets-connection-already-closed-in-both-directions(no-time-wait,rst-not-validated)"));
     }
+    if zero_win {
+        v.push(("F-C06-2", "sender-left-with-zero-window(no-persist-probe)"));
+    }
+    if cut_short {
+        v.push(("F-C06-3", "aborted-before-oldest-segment-was-sent-retx_max+1-times(handshake-retx-counters-carried-over)"));
+    }
+    if ack_ignored {
+        v.push(("F-C06-4", "delivered-ack-ignored-after-go-back-n-rewind(sender-retransmits-below-it)"));
+    }
+    if lost_ack {
+        v.push(("F-C06-1", "acknowledged-data-retransmitted-but-never-re-acked"));
+    }
+    v
 }
 
 const CONN_ERRS: [&str; 5] = ["TimedOut", "ConnectionReset", "BrokenPipe", "NotConnected", "ConnectionRefused"];
@@ -493,16 +525,21 @@ fn judge(sc: &Scenario, seen: &Seen, slow_rerun: Option<&Seen>, out: &mut Outcom
                 seen.tracker.as_ref().map(|t| serde_json::to_string(&t.conns).unwrap_or_default()).unwrap_or_default(),
             )
         };
-        match attribute(sc, seen) {
-            Some((id, sig)) => {
-                if sc.strict || std::env::var("VERIF_C06_STRICT").map(|v| v == id).unwrap_or(false) {
-                    out.fail(format!("liveness-within-budget:{sig}"), format!("{what}; {}", detail()));
-                } else {
-                    out.exclude(id);
-                    out.label(format!("excluded:{id}"));
-                }
+        let pats = attribute(sc, seen);
+        let forced = std::env::var("VERIF_C06_STRICT").unwrap_or_default();
+        // tolerated: the first pattern whose finding still has status "known"
+        let tolerated = if sc.strict || pats.first().map(|(id, _)| forced == *id).unwrap_or(false) {
+            None
+        } else {
+            pats.iter().find(|(id, _)| is_known(id))
+        };
+        match (tolerated, pats.first()) {
+            (Some((id, _)), _) => {
+                out.exclude(*id);
+                out.label(format!("excluded:{id}"));
             }
-            None => out.fail(format!("liveness-within-budget:{what}"), detail()),
+            (None, Some((_, sig))) => out.fail(format!("liveness-within-budget:{sig}"), format!("{what}; {}", detail())),
+            (None, None) => out.fail(format!("liveness-within-budget:{what}"), detail()),
         }
         return;
     }
@@ -549,7 +586,7 @@ fn judge(sc: &Scenario, seen: &Seen, slow_rerun: Option<&Seen>, out: &mut Outcom
                         continue;
                     }
                     if me.win == Some(0) {
-                        if sc.strict {
+                        if sc.strict || !is_known("F-C06-2") {
                             out.fail("beyond-budget:sender-left-with-zero-window(no-persist-probe)", format!("end {e}: {me:?}"));
                         } else {
                             out.exclude("F-C06-2");
@@ -1062,12 +1099,15 @@ pub fn e2e_strategy() -> BoxedStrategy<Scenario> {
                 sc.plan.by_kind.clear();
                 // loopback MSS instead of the external one
                 sc.cfg.loopback_mtu = sc.cfg.mtu;
-                // no packet log in this mode, so F-C06-2 cannot be recognised: avoid its shape
-                // (a reader whose single reads free less than half the receive buffer)
-                let need = (sc.cfg.recv_cap / 2 + 1).min(40_000) as u16;
-                for side in [&mut sc.client, &mut sc.server] {
-                    side.read_steps.clear();
-                    side.bufs.iter_mut().for_each(|b| *b = (*b).max(need));
+                // no packet log in this mode, so F-C06-2 cannot be recognised: while it is a known
+                // finding avoid its shape (a reader whose single reads free less than half the
+                // receive buffer); once it is fixed the full space is generated again
+                if is_known("F-C06-2") {
+                    let need = (sc.cfg.recv_cap / 2 + 1).min(40_000) as u16;
+                    for side in [&mut sc.client, &mut sc.server] {
+                        side.read_steps.clear();
+                        side.bufs.iter_mut().for_each(|b| *b = (*b).max(need));
+                    }
                 }
                 if sc.cfg.recv_cap > 65_536 {
                     sc.cfg.recv_cap = 65_536;
@@ -1273,7 +1313,7 @@ fn check(tier: Tier, seed: u64) -> i32 {
             "within budget the reader task only reads; with reordering possible, scripted reader pauses are <= 3 rounds and count as 2 extra lost copies in the budget (plus 1 for a first segment that overtakes the handshake ACK); without any fault a reader may pause longer than a whole retransmit budget (slow-reader class)",
             "round bound R = 4*((bytes+12+D+plan/4)*(T+2d+3)+pauses)+64; a run that hits it is re-run with 10*R before it is called a stall; a run in which nothing can happen any more (no runnable task, nothing in flight, no emission for T*(M+2)+2+d rounds) is a definitive stall",
             "packet duplication is never generated (outside the documented fault model)",
-            "runs that fail liveness with the wire pattern of F-C06-1 (peer acknowledged sequence space the sender never learns about) or F-C06-2 (sender left with a zero window) are excluded and counted; safety clauses are still checked on them; the strict probes assert the full clause",
+            "tolerance is status-driven: a within-budget run that fails liveness and shows the wire pattern of a C06 finding whose entry in known_findings.json has status \"known\" (F-C06-1 duplicate never re-ACKed / lost ACK never repeated, F-C06-2 sender left with a zero window, F-C06-3 handshake retransmit counters carried over, F-C06-4 delivered ACK ignored after a go-back-N rewind, F-C06-5 late RST after a clean close) is excluded and counted, safety clauses are still checked on it, and the fixture::lo generator avoids the F-C06-2 shape only while F-C06-2 is known; a finding with status \"fixed\" suppresses nothing and its signature is reported as a violation again; the strict replays always assert the full clause",
             "fixture sub-tier: Deliver(k ms) = k fixture ticks; delivery order inside a tick is the fixture's own; loopback traffic never meets a rule",
         ],
     )
